@@ -205,6 +205,10 @@ func (l *lexer) errorf(format string, args ...interface{}) stateFn {
 	tok := token{fmt.Sprintf(format, args...), tokenError, Pos{l.line, l.offset}}
 	l.tokens <- tok
 	verifEvent("lex.sent", l, tok.tokenType.String())
+	// Nothing follows an error: close the channel so that the parser keeps
+	// receiving the error token instead of blocking on the next read.
+	close(l.tokens)
+	l.mode = modeClosed
 
 	return nil
 }
